@@ -128,7 +128,21 @@ def curved_cases(tier, seed):
         if c['extra'].startswith(('telescope', 'distload')) or 'fixed' in c['extra']:
             continue
         yield dict(curved=c['extra'], env=c['env'], f=c['f'], lam=c['lam'], wires=c['descs'][0], srcs=c['srcs'])
-
+    # tapered wires whose smallest natural segment is below the minimum of 2.5 radii (the minimum binds, so the
+    # segment table depends on the radius): the moved structure must be segmented like the unmoved one
+    _, f, lam = geom.lattice(seed)
+    A, B, C = np.array([0., 0., -0.24 * lam]), np.zeros(3), np.array([0., 0.05 * lam, 0.25 * lam])
+    for ttype in (1, 2, 3):
+        for rr in (0.003, 0.0012):
+            r = rr * lam
+            if ttype == 1:      # fine ends at the feed, both wires written towards / away from it
+                wires = [geom.wire(A, B, 6, r, taper=[2]), geom.wire(B, C, 6, r, taper=[1])]
+            elif ttype == 2:    # the same with reversed listing of the ends
+                wires = [geom.wire(B, A, 6, r, taper=[1]), geom.wire(C, B, 6, r, taper=[2])]
+            else:
+                wires = [geom.wire(A, B, 8, r, taper=[3]), geom.wire(B, C, 8, r, taper=[3])]
+            yield dict(curved='thicktaper%d-r%g' % (ttype, rr), env='free', f=f, lam=lam, wires=wires,
+                       srcs=[dict(at=[0., 0., 0.], dir=[0., 0., 1.], v=[1.0, 0.0])])
 
 def eval_curved(c):
     ground = c['env'] != 'free'
